@@ -147,6 +147,34 @@ def arr_eq(a, b):
 
 _PROBE = z3.Int('probe!idx')
 
+_COMM = (z3.Z3_OP_EQ, z3.Z3_OP_DISTINCT, z3.Z3_OP_ADD, z3.Z3_OP_MUL,
+         z3.Z3_OP_AND, z3.Z3_OP_OR, z3.Z3_OP_IFF)
+
+
+def canon_key(t, _memo=None):
+    """Structural key of a term, insensitive to the argument order of
+    commutative operators (z3 may build `0 == x` or `x == 0`)."""
+    if _memo is None:
+        _memo = {}
+    i = t.get_id()
+    if i in _memo:
+        return _memo[i][1]
+    if z3.is_app(t):
+        ch = [canon_key(c, _memo) for c in t.children()]
+        if t.decl().kind() in _COMM:
+            ch.sort()
+        r = '(' + t.decl().name() + ':' + str(t.decl().kind()) + ' ' + \
+            ' '.join(ch) + ')' if ch else str(t)
+    elif z3.is_var(t):
+        r = 'v' + str(z3.get_var_index(t))
+    elif z3.is_quantifier(t):
+        r = ('A' if t.is_forall() else 'E') + str(t.num_vars()) + \
+            canon_key(t.body(), _memo)
+    else:
+        r = str(t)
+    _memo[i] = (t, r)
+    return r
+
 
 class MaskInfo:
     """count / sel / rank of a boolean mask and of its complement."""
@@ -199,11 +227,12 @@ def mask_info(st, m):
     # masks are identified structurally: same length term and same element
     # term at a probe index (z3 terms are hash-consed, ids are stable while the
     # term is kept alive in the cache)
-    probe = m.at(_PROBE)
-    key = (probe.get_id(), m.n.get_id())
+    memo = {}
+    key = (canon_key(z3.simplify(m.at(_PROBE)), memo),
+           canon_key(z3.simplify(m.n), memo))
     if key not in cache:
         cache = dict(cache)
-        cache[key] = (MaskInfo(st, m), m, probe, m.n)
+        cache[key] = (MaskInfo(st, m), m)
         st.ghost['maskinfo'] = cache
     return cache[key][0], True
 
